@@ -37,7 +37,50 @@ pub fn std_args(f: &str, w: Option<usize>, t: usize) -> Vec<String> {
 }
 
 // ------------------------------------------------------------------------------------------ knapsack
+/// (capacity, weight, profit) with capacity < weight on which `floor((capacity as f64 / weight as f64) * profit as f64)` is one
+/// less than the exact `floor(capacity * profit / weight)` (an integer reached from below by the rounded product)
+fn float_traps() -> Vec<(i64, i64, i64)> {
+    let mut v = vec![];
+    for w in 1..60i64 { for c in 1..w { for p in 1..60i64 {
+        if ((c as f64 / w as f64) * p as f64).floor() as i64 != (c * p).div_euclid(w) { v.push((c, w, p)); }
+    }}}
+    v
+}
+/// instances built around a fractional item whose exact Dantzig share is an integer: the rough upper bound must not lose it
+fn gen_knapsack_ratio_ties(rng: &mut Rng) -> ExInst {
+    let traps = float_traps();
+    let (c, w, p) = *rng.pick(&traps);
+    let n = rng.range(3, 7) as usize;
+    let mut items: Vec<(i64, i64)> = vec![(p, w)];
+    for _ in 1..n {
+        let ww = rng.range(1, (c + 3).max(2));
+        let pp = if rng.chance(1, 2) { ((ww * p) / w).max(1) } else { rng.range(1, 60) };
+        items.push((pp, ww));
+    }
+    for i in (1..items.len()).rev() { let j = rng.below(i as u64 + 1) as usize; items.swap(i, j); }
+    let extra = rng.range(0, 20);
+    let cap = c + *rng.pick(&[0, 0, 1, 2, extra]) + if rng.chance(1, 2) { 0 } else { items[0].1 + items[1].1 };
+    let mut file = format!("{} {}\n", items.len(), cap);
+    for (pp, ww) in &items { file.push_str(&format!("{} {}\n", pp, ww)); }
+    ExInst { file, tokens: format!("{} {} {}", items.len(), cap, items.iter().map(|(pp, ww)| format!("{} {}", pp, ww)).collect::<Vec<_>>().join(" ")), tags: vec!["ratio_ties"] }
+}
+/// the sharpest form: capacity c; G = (k-1, .) of ratio >= p/w found first by the restricted diagram (incumbent k-1);
+/// X = (p, w) does not fit (c < w) and its exact Dantzig share is the integer k = c*p/w; Y = (k, c) of the same ratio
+/// comes after X: the optimum k is reached by leaving G out, through a node whose rough bound must be at least k
+fn gen_knapsack_trap(rng: &mut Rng) -> ExInst {
+    let traps: Vec<(i64, i64, i64)> = float_traps().into_iter().filter(|(c, w, p)| (c * p) % w == 0 && (c * p) / w >= 2).collect();
+    let (c, w, p) = *rng.pick(&traps);
+    let k = c * p / w;
+    let gw = (((k - 1) * w) / p).max(1).min(c);
+    let mut items: Vec<(i64, i64)> = vec![(k - 1, gw), (p, w), (k, c)];
+    if rng.chance(1, 3) { items.push((rng.range(1, 3), c + rng.range(1, 9))); }      // never fits
+    if rng.chance(1, 4) { items.swap(1, 2); }
+    let mut file = format!("{} {}\n", items.len(), c);
+    for (pp, ww) in &items { file.push_str(&format!("{} {}\n", pp, ww)); }
+    ExInst { file, tokens: format!("{} {} {}", items.len(), c, items.iter().map(|(pp, ww)| format!("{} {}", pp, ww)).collect::<Vec<_>>().join(" ")), tags: vec!["ratio_ties", "integer_share"] }
+}
 pub fn gen_knapsack(rng: &mut Rng) -> ExInst {
+    match rng.below(3) { 0 => return gen_knapsack_ratio_ties(rng), 1 => return gen_knapsack_trap(rng), _ => {} }
     let n = rng.range(1, 9) as usize;
     let w: Vec<i64> = (0..n).map(|_| rng.range(0, 12)).collect();
     let p: Vec<i64> = (0..n).map(|_| rng.range(0, 20)).collect();
@@ -55,6 +98,7 @@ pub fn examples() -> Vec<Example> {
         Example { name: "knapsack", gen: gen_knapsack, args: std_args, parse: std_parse, threads: true },
     ];
     v.extend(crate::exgen::more_examples());
+    v.extend(crate::exgen_b::more_examples());
     v
 }
 
@@ -95,11 +139,28 @@ pub fn run_ex(a: &Args) {
         out.finish(); return;
     }
     let mut rng = Rng::new(a.seed);
-    let per = if a.thorough { 400 } else { 24 };
+    // `--per=<quick>,<thorough>`: instances per example (two width x thread combinations each)
+    let per = a.extra.iter().find_map(|x| x.strip_prefix("--per=").map(|v| { let t: Vec<usize> = v.split(',').map(|y| y.parse().unwrap()).collect(); if a.thorough { t[1] } else { t[0] } })).unwrap_or(if a.thorough { 400 } else { 24 });
+    // the corpus of minimised past failures runs first (same line format as a replay)
+    let corpus = std::fs::read_to_string(std::env::var("VERIF_C16_CORPUS").unwrap_or("/verif/corpus/C16/cases.txt".into())).unwrap_or_default();
     for ex in exs.iter().filter(|e| only.is_empty() || only.iter().any(|o| o == e.name)) {
         let bin = format!("{}/{}", bindir, ex.name);
+        for (k, line) in corpus.lines().filter(|l| !l.starts_with('#') && l.split_whitespace().next() == Some(ex.name)).enumerate() {
+            let parts: Vec<&str> = line.split('|').collect();
+            let h: Vec<&str> = parts[0].split_whitespace().collect();
+            let file: String = String::from_utf8((0..parts[2].trim().len() / 2).map(|i| u8::from_str_radix(&parts[2].trim()[2 * i..2 * i + 2], 16).unwrap()).collect()).unwrap();
+            let path = format!("{}/d/corpus_{}_{}.txt", work, ex.name, k);
+            std::fs::write(&path, &file).unwrap();
+            let w: i64 = h[1].parse().unwrap(); let t: usize = h[2].parse().unwrap();
+            let res = run_bin(&bin, &(ex.args)(&path, if w < 0 { None } else { Some(w as usize) }, t), 60);
+            let imp = match res { Ok(s) => (ex.parse)(&s), Err(e) => e };
+            out.case_tagged(line.trim(), &imp, &format!("{} corpus", ex.name));
+            std::fs::remove_file(&path).ok();
+        }
         for k in 0..per {
             let inst = (ex.gen)(&mut rng);
+            // instances outside the documented input domain of the example (tags `ood_*`) are not part of the property
+            if inst.tags.iter().any(|t| t.starts_with("ood_")) { continue; }
             let path = format!("{}/d/{}_{}.txt", work, ex.name, k);
             std::fs::write(&path, &inst.file).unwrap();
             // widths {1,2,3,default} x threads {1,2,4}: two combinations per instance, all of them over the run
